@@ -51,7 +51,7 @@ typedef struct {
   int sproc, scall; long ssecs;
   int kproc, kcall;
   int fproc, fcall, ferr;
-  int d2; int skip;
+  int d2; int skip; unsigned long long inooff;
   unsigned long crashk; int crashmode;
   unsigned long long sched;
   int hor;
@@ -177,32 +177,33 @@ static void pre_populate(void) {
     if (k == 'p' || k == 'q') {
       snprintf(p1, sizeof p1, QROOT "/pid/%d.%ld.%d", 4000 + i, at, i);
       int ino = sim_mkfile(p1, "old\n", 4, 7794, 0644); W.ino[ino].atime = W.ino[ino].mtime = at;
-      xlog("X pre pid ino=%d atime=%ld path=pid/%d.%ld.%d\n", ino, at, 4000 + i, at, i);
-      if (k == 'q') { snprintf(p2, sizeof p2, QROOT "/mess/%d/%d", ino % auto_split, ino); sim_link_(p1, p2); xlog("X pre file=mess n=%d ino=%d atime=%ld\n", ino, ino, at); }
+      xlog("X pre pid ino=%llu atime=%ld path=pid/%d.%ld.%d\n", SIM_RINO(ino), at, 4000 + i, at, i);
+      if (k == 'q') { snprintf(p2, sizeof p2, QROOT "/mess/%llu/%llu", SIM_RINO(ino) % auto_split, SIM_RINO(ino)); sim_link_(p1, p2); xlog("X pre file=mess n=%llu ino=%llu atime=%ld\n", SIM_RINO(ino), SIM_RINO(ino), at); }
       continue;
     }
     int ino = sim_mkfile_ino(QROOT "/mess/%d/%d", auto_split, "Subject: old\n\nold\n", 19, 7794, 0644);
     W.ino[ino].atime = W.ino[ino].mtime = at;
-    xlog("X pre file=mess n=%d ino=%d atime=%ld\n", ino, ino, at);
+    xlog("X pre file=mess n=%llu ino=%llu atime=%ld\n", SIM_RINO(ino), SIM_RINO(ino), at);
     if (k == '3' || k == '4') {
       unsigned char env[200]; size_t n = 0;
       n += sprintf((char *)env + n, "u1000") + 1; n += sprintf((char *)env + n, "p4242") + 1;
       memcpy(env + n, ENV_LOCAL, sizeof ENV_LOCAL - 1); n += sizeof ENV_LOCAL - 1;    /* F..\0T..\0 (sizeof counts the literal's final NUL = T record terminator) */
-      snprintf(p1, sizeof p1, QROOT "/intd/%d", ino); int e = sim_mkfile(p1, env, n, 7794, 0644); W.ino[e].atime = W.ino[e].mtime = at;
-      xlog("X pre file=intd n=%d ino=%d atime=%ld\n", ino, e, at);
-      if (k == '4') { snprintf(p2, sizeof p2, QROOT "/todo/%d", ino); sim_link_(p1, p2); xlog("X pre file=todo n=%d ino=%d atime=%ld\n", ino, e, at); }
+      snprintf(p1, sizeof p1, QROOT "/intd/%llu", SIM_RINO(ino)); int e = sim_mkfile(p1, env, n, 7794, 0644); W.ino[e].atime = W.ino[e].mtime = at;
+      xlog("X pre file=intd n=%llu ino=%llu atime=%ld\n", SIM_RINO(ino), SIM_RINO(e), at);
+      if (k == '4') { snprintf(p2, sizeof p2, QROOT "/todo/%llu", SIM_RINO(ino)); sim_link_(p1, p2); xlog("X pre file=todo n=%llu ino=%llu atime=%ld\n", SIM_RINO(ino), SIM_RINO(e), at); }
     }
     if (k == '5') {
-      snprintf(p1, sizeof p1, QROOT "/info/%d/%d", ino % auto_split, ino); int e = sim_mkfile(p1, "Fs@src.example\0", 15, 7796, 0600); W.ino[e].atime = W.ino[e].mtime = at;
-      xlog("X pre file=info n=%d ino=%d atime=%ld\n", ino, e, at);
-      snprintf(p1, sizeof p1, QROOT "/local/%d/%d", ino % auto_split, ino); e = sim_mkfile(p1, "Tu1@h.example\0", 14, 7796, 0600); W.ino[e].atime = W.ino[e].mtime = at;
-      xlog("X pre file=local n=%d ino=%d atime=%ld\n", ino, e, at);
+      snprintf(p1, sizeof p1, QROOT "/info/%llu/%llu", SIM_RINO(ino) % auto_split, SIM_RINO(ino)); int e = sim_mkfile(p1, "Fs@src.example\0", 15, 7796, 0600); W.ino[e].atime = W.ino[e].mtime = at;
+      xlog("X pre file=info n=%llu ino=%llu atime=%ld\n", SIM_RINO(ino), SIM_RINO(e), at);
+      snprintf(p1, sizeof p1, QROOT "/local/%llu/%llu", SIM_RINO(ino) % auto_split, SIM_RINO(ino)); e = sim_mkfile(p1, "Tu1@h.example\0", 14, 7796, 0600); W.ino[e].atime = W.ino[e].mtime = at;
+      xlog("X pre file=local n=%llu ino=%llu atime=%ld\n", SIM_RINO(ino), SIM_RINO(e), at);
     }
   }
 }
 static void world_init(void) {
   char b[100];
   sim_reset();
+  W.ino_off = S.inooff;
   W.clock = T0;
   sim_user("alias", 7790, 2108); sim_user("qmaild", 7791, 2108); sim_user("qmails", 7796, 2107); sim_user("qmailq", 7794, 2107);
   sim_user("qmailr", 7795, 2107); sim_user("qmaill", 7792, 2108); sim_user("qmailp", 7793, 2108);
@@ -335,6 +336,7 @@ static void parse_scenario(const char *line) {
     else if (!strcmp(t, "fault")) sscanf(v, "%d:%d:%d", &S.fproc, &S.fcall, &S.ferr);
     else if (!strcmp(t, "d2")) S.d2 = atoi(v);
     else if (!strcmp(t, "skip")) S.skip = atoi(v) % 64;
+    else if (!strcmp(t, "inooff")) S.inooff = strtoull(v, 0, 10);   /* the file system reports inode numbers starting at this value (>= 2^32: beyond unsigned int) */
     else if (!strcmp(t, "dfs")) { dfs_mode = 1; ndsched = 0; if (strcmp(v, "-")) { char *s3 = 0; for (char *u = strtok_r(v, ",", &s3); u && ndsched < 512; u = strtok_r(0, ",", &s3)) dsched[ndsched++] = atoi(u); } }
     else if (!strcmp(t, "crash")) sscanf(v, "%lu:%d", &S.crashk, &S.crashmode);
     else if (!strcmp(t, "sched")) S.sched = strtoull(v, 0, 10);
@@ -345,6 +347,8 @@ static void parse_scenario(const char *line) {
 
 static void gen_scenario(char *o, size_t osz, int r) {
   size_t n = 0;
+  static const unsigned long long offs[] = { 4294967296ULL, 12884901895ULL, 1099511627776ULL, 4294967196ULL /* crosses 2^32 during the run */ };
+  if (r % 7 == 5) n += snprintf(o + n, osz - n, "inooff=%llu ", offs[(r / 7) % 4]);
   int ninj = 1 + h_below(3);
   n += snprintf(o + n, osz - n, "inj=");
   for (int i = 0; i < ninj; i++) n += snprintf(o + n, osz - n, "%c", "001122345567"[h_below(12)]);
